@@ -269,3 +269,48 @@ package ociclient
 //@   requires ociref.IsValidDigest(string(digest))
 //@ func (*client).DeleteManifest
 //@   requires ociref.IsValidDigest(string(digest))
+
+// ---------------------------------------------------------------------------
+// C03: each client method issues exactly the request that names the caller's
+// operation and arguments (kind, repository, digest or tag) and returns what
+// the request helper returns.
+//@ pure func reqIs(r *ocirequest.Request, kind ocirequest.Kind, repo string, dig string, tag string) bool =
+//@   r != nil && r.Kind == kind && r.Repo == repo && r.Digest == dig && r.Tag == tag && r.FromRepo == "" && r.UploadID == ""
+//@ func (*client).read
+//@   log
+//@ func (*client).resolve
+//@   log
+//@ func (*client).delete
+//@   log
+//@ func (*client).pager
+//@   log
+//@ func (*client).GetBlob
+//@   ensures[asks-for-that-blob] calls == [c.read(ctx, _)] && reqIs(calls[0].arg.2, ocirequest.ReqBlobGet, repo, string(digest), "") &&
+//@     result.0 == calls[0].result.0 && result.1 == calls[0].result.1
+//@ func (*client).GetManifest
+//@   ensures[asks-for-that-manifest] calls == [c.read(ctx, _)] && reqIs(calls[0].arg.2, ocirequest.ReqManifestGet, repo, string(digest), "") &&
+//@     result.0 == calls[0].result.0 && result.1 == calls[0].result.1
+//@ func (*client).GetTag
+//@   ensures[asks-for-that-tag] calls == [c.read(ctx, _)] && reqIs(calls[0].arg.2, ocirequest.ReqManifestGet, repo, "", tagName) &&
+//@     result.0 == calls[0].result.0 && result.1 == calls[0].result.1
+//@ func (*client).ResolveBlob
+//@   ensures[asks-about-that-blob] calls == [c.resolve(ctx, _)] && reqIs(calls[0].arg.2, ocirequest.ReqBlobHead, repo, string(digest), "") &&
+//@     result.0 == calls[0].result.0 && result.1 == calls[0].result.1
+//@ func (*client).ResolveManifest
+//@   ensures[asks-about-that-manifest] calls == [c.resolve(ctx, _)] && reqIs(calls[0].arg.2, ocirequest.ReqManifestHead, repo, string(digest), "") &&
+//@     result.0 == calls[0].result.0 && result.1 == calls[0].result.1
+//@ func (*client).ResolveTag
+//@   ensures[asks-about-that-tag] calls == [c.resolve(ctx, _)] && reqIs(calls[0].arg.2, ocirequest.ReqManifestHead, repo, "", tag) &&
+//@     result.0 == calls[0].result.0 && result.1 == calls[0].result.1
+//@ func (*client).DeleteBlob
+//@   ensures[deletes-that-blob] calls == [c.delete(ctx, _)] && reqIs(calls[0].arg.2, ocirequest.ReqBlobDelete, repoName, string(digest), "") && result == calls[0].result
+//@ func (*client).DeleteManifest
+//@   ensures[deletes-that-manifest] calls == [c.delete(ctx, _)] && reqIs(calls[0].arg.2, ocirequest.ReqManifestDelete, repoName, string(digest), "") && result == calls[0].result
+//@ func (*client).DeleteTag
+//@   ensures[deletes-that-tag] calls == [c.delete(ctx, _)] && reqIs(calls[0].arg.2, ocirequest.ReqManifestDelete, repoName, "", tagName) && result == calls[0].result
+//@ func (*client).Repositories
+//@   ensures[lists-from-the-start-point] calls == [c.pager(ctx, _, _)] && calls[0].arg.2 != nil && calls[0].arg.2.Kind == ocirequest.ReqCatalogList &&
+//@     calls[0].arg.2.ListLast == startAfter && calls[0].arg.2.ListN == c.listPageSize && result == calls[0].result
+//@ func (*client).Tags
+//@   ensures[lists-that-repository-from-the-start-point] calls == [c.pager(ctx, _, _)] && calls[0].arg.2 != nil && calls[0].arg.2.Kind == ocirequest.ReqTagsList &&
+//@     calls[0].arg.2.Repo == repoName && calls[0].arg.2.ListLast == startAfter && calls[0].arg.2.ListN == c.listPageSize && result == calls[0].result
